@@ -8,7 +8,12 @@
 //
 //	op  ev rt=in|peer st=off|skip|drop|keep fin=0|1 fpeer=0|1 enc=map|msgp|bad
 //	       host= key= ds= env= rate= ts=<sec.nsec> f=<key;type;value,…|->
+//	op  dsdecode <segment>   real getDatasetFromRequest, mux variable datasetName = <segment>
+//	op  dsescape <dataset>   url.PathEscape (pins the model of the external function)
+//	op  dshop <dataset>      real buildRequestURL -> HTTP request line -> mux with the router's
+//	                         route template (UseEncodedPath) -> real getDatasetFromRequest
 //	ext which <trace id> = <address>      every Sharder.WhichShard call made during the op
+//	ext seg <dataset> = <segment>         the mux variable the receiving handler saw (dshop)
 //	obs err=… imm=<ProcessSpanImmediately calls> n=<sink calls> <call>… final=<event at return>
 package main
 
@@ -16,11 +21,15 @@ import (
 	"context"
 	"errors"
 	"fmt"
+	"net/http"
+	"net/http/httptest"
+	"net/url"
 	"sort"
 	"strconv"
 	"strings"
 	"time"
 
+	"github.com/gorilla/mux"
 	"github.com/honeycombio/refinery/collect"
 	"github.com/honeycombio/refinery/config"
 	"github.com/honeycombio/refinery/internal/peer"
@@ -29,6 +38,7 @@ import (
 	"github.com/honeycombio/refinery/metrics"
 	"github.com/honeycombio/refinery/route"
 	"github.com/honeycombio/refinery/sharder"
+	"github.com/honeycombio/refinery/transmit"
 	"github.com/honeycombio/refinery/types"
 	"github.com/tinylib/msgp/msgp"
 )
@@ -332,7 +342,35 @@ func (comp) Gen(r *kit.Rng, maxLen int, tier string) kit.Case {
 	for i := range ops {
 		ops[i] = genEvent(r, tn, pn, pool)
 	}
+	for k := 2 + r.Intn(3); k > 0; k-- {
+		ops = append(ops, genDatasetOp(r))
+	}
 	return kit.Case{Header: h, Ops: ops}
+}
+
+// dataset names / path segments: everything the escaping rules distinguish
+func genDatasetOp(r *kit.Rng) string {
+	pieces := []string{"team", "env", "prod", "a", "Z9", "+", "+", " ", "%", "/", "?", "#", "é", "日本", "%2B", "%20", "%2F",
+		"-", "_", ".", "~", "$", "&", ":", "=", "@", ";", ",", "!", "*", "(", ")", "'", "\"", "<", "\\", "\x00", "\n", "\x7f", "\xff"}
+	mk := func() string {
+		var b strings.Builder
+		for n := 1 + r.Intn(4); n > 0; n-- {
+			b.WriteString(pieces[r.Intn(len(pieces))])
+		}
+		return b.String()
+	}
+	switch r.Pick(5, 2, 3) {
+	case 0:
+		ds := mk()
+		return "dshop " + kit.Enc(ds)
+	case 1:
+		return "dsescape " + kit.Enc(mk())
+	}
+	segs := []string{"", "%", "%2", "%zz", "a%2Fb", "team+env", "a+b%2Bc", "%2B", "%41%e9", "%E9", "x%", "%%20", "a%20b", "+", "%2b+%2B"}
+	if r.Chance(50) {
+		return "dsdecode " + kit.Enc(segs[r.Intn(len(segs))])
+	}
+	return "dsdecode " + kit.Enc(mk())
 }
 
 // ------------------------------------------------------------------------------- runner
@@ -346,6 +384,11 @@ type call struct {
 }
 
 type runner struct {
+	mux      *mux.Router
+	hopSeen  bool
+	hopSeg   string
+	hopDs    string
+	hopErr   error
 	cfg      *config.MockConfig
 	incoming *route.Router
 	peerRt   *route.Router
@@ -449,7 +492,58 @@ func (comp) NewCase(h []string) kit.Runner {
 	met := &metrics.NullMetrics{}
 	r.incoming = route.VerifRouterNew(r.cfg, lg, met, r.up, r.ptx, coll, rs, types.RouterTypeIncoming)
 	r.peerRt = route.VerifRouterNew(r.cfg, lg, met, r.up, r.ptx, coll, rs, types.RouterTypePeer)
+	// the route template of Router.LnS for events and batches (subrouter with UseEncodedPath)
+	r.mux = mux.NewRouter()
+	authed := r.mux.PathPrefix("/1/").Methods("POST").Subrouter()
+	authed.UseEncodedPath()
+	h2 := func(w http.ResponseWriter, req *http.Request) {
+		r.hopSeen = true
+		r.hopSeg = mux.Vars(req)["datasetName"]
+		r.hopDs, r.hopErr = route.VerifRouterDataset(req)
+	}
+	authed.HandleFunc("/events/{datasetName}", h2)
+	authed.HandleFunc("/batch/{datasetName}", h2)
 	return r
+}
+
+func okDs(ds string, err error) string {
+	if err != nil {
+		return "err"
+	}
+	return "ok " + kit.Enc(ds)
+}
+
+func (r *runner) dataset(op []string) (string, bool) {
+	if len(op) != 2 {
+		return "bad-op", true
+	}
+	arg := kit.Dec(op[1])
+	switch op[0] {
+	case "dsdecode":
+		req := httptest.NewRequest("POST", "/1/batch/x", nil)
+		req = mux.SetURLVars(req, map[string]string{"datasetName": arg})
+		return okDs(route.VerifRouterDataset(req)), true
+	case "dsescape":
+		return kit.Enc(url.PathEscape(arg)), true
+	case "dshop":
+		u, err := transmit.VerifRouterBuildURL("http://n1:8081", arg)
+		if err != nil {
+			kit.Ext("seg %s = !nomatch", op[1])
+			return "nomatch", true
+		}
+		r.hopSeen = false
+		func() {
+			defer func() { recover() }() // httptest.NewRequest panics on an unparsable request line
+			r.mux.ServeHTTP(httptest.NewRecorder(), httptest.NewRequest("POST", u, nil))
+		}()
+		if !r.hopSeen {
+			kit.Ext("seg %s = !nomatch", op[1])
+			return "nomatch", true
+		}
+		kit.Ext("seg %s = %s", op[1], kit.Enc(r.hopSeg))
+		return okDs(r.hopDs, r.hopErr), true
+	}
+	return "bad-op", true
 }
 
 func appendVal(b []byte, f field) []byte {
@@ -580,7 +674,7 @@ func (r *runner) desc(ev *types.Event) string {
 
 func (r *runner) Do(op []string) (string, bool) {
 	if op[0] != "ev" {
-		return "bad-op", true
+		return r.dataset(op)
 	}
 	a := op[1:]
 	r.enc = kit.KV(a, "enc")
